@@ -81,31 +81,21 @@ impl IggyByteSize {
     pub fn as_bytes_usize(&self) -> (r: usize) ensures r == self.0, { self.0 as usize }
 }
 
-// Permissions (sdk/src/models/permissions.rs): nested maps, encoded in map-iteration order. The codec pair
-// Permissions::{to_bytes, from_bytes} is under contract in unit codec_requests2 ([C13.rt.Permissions]); HERE it is an ASSUMED
-// contract over two uninterpreted relations: `perm_enc_ok(p, b)` "b is an encoding of p (for some entry order)" and
-// `perm_same(q, p)` "q and p are equal as values (global flags, stream and topic maps)".
-#[verifier::external_body]
-pub struct Permissions { p: u8 }
-pub uninterp spec fn perm_enc_ok(p: Permissions, b: Seq<u8>) -> bool;
-pub uninterp spec fn perm_same(q: Permissions, p: Permissions) -> bool;
-pub uninterp spec fn perm_bytes(p: Permissions) -> Seq<u8>;     // what to_bytes returns for this object
+// Permissions (sdk/src/models/permissions.rs): the codec pair Permissions::{to_bytes, from_bytes} is under contract in unit
+// codec_requests2, whose contract blocks (permissions.vspec) are INCLUDED here (same text, verified again in this file); wire format,
+// abstract content and lemmas: vx/prelude/wire_perm.rs. Names used by the user response:
+//   perm_bytes(p)      what `to_bytes` emits for the record p: the layout for the order in which its maps iterate
+//   perm_enc_ok(p, b)  b is an encoding of p (for SOME entry order)
+//   perm_same(q, p)    q and p are equal as values (global flags, stream and topic maps; an absent map == an empty map)
+pub open spec fn perm_bytes(p: Permissions) -> Seq<u8> { enc_permissions(p) }
+pub open spec fn perm_enc_ok(p: Permissions, b: Seq<u8>) -> bool { enc_permissions_rel(p, b) }
+pub open spec fn perm_same(q: Permissions, p: Permissions) -> bool { perm_eq(q, p) }
 pub open spec fn perm_dec_ok(b: Seq<u8>, q: Permissions) -> bool { forall|p: Permissions| perm_enc_ok(p, b) ==> perm_same(q, p) }
-// what `to_bytes` returns is an encoding of the record; A-size: it is shorter than 4 GiB (the response frames its length as u32)
+// A-size: the encoding of a permissions record is shorter than 4 GiB (the response frames its length as u32)
 #[verifier::external_body]
-pub proof fn axiom_perm_bytes(p: Permissions)
-    ensures perm_enc_ok(p, perm_bytes(p)), perm_bytes(p).len() <= u32::MAX,
+pub proof fn axiom_perm_size(p: Permissions)
+    ensures perm_bytes(p).len() <= u32::MAX,
 {}
-impl Permissions {
-    #[verifier::external_body]
-    pub fn to_bytes(&self) -> (r: ByteSeq)
-        ensures r@ == perm_bytes(*self),
-    { unimplemented!() }
-    #[verifier::external_body]
-    pub fn from_bytes(b: ByteSeq) -> (r: Result<Permissions, IggyError>)
-        ensures (exists|p: Permissions| perm_enc_ok(p, b@)) ==> (r matches Ok(q) && perm_dec_ok(b@, q)),
-    { unimplemented!() }
-}
 
 // ---- R8 schemas on Vec (A-std): `v.sort_by(|a, b| a.K.cmp(&b.K))` is a stable ascending sort by key K: the result is a
 // permutation of the input (index form, so that it lifts to views), sorted by K, and an already sorted input is left as it is.
@@ -556,29 +546,29 @@ impl vstd::std_specs::convert::FromSpecImpl<u64> for MaxTopicSize {
 
 // ---- stream (list entry; head of the stream response) ------------------------------------------------------------------------------
 //   id:u32 | created_at:u64 | topics_count:u32 | size:u64 | messages_count:u64 | name_length:u8 | name[name_length]
-pub ghost struct StreamV { pub id: u32, pub created_at: u64, pub topics_count: u32, pub size: u64, pub messages_count: u64, pub name: Seq<u8> }
+pub ghost struct StreamInfoV { pub id: u32, pub created_at: u64, pub topics_count: u32, pub size: u64, pub messages_count: u64, pub name: Seq<u8> }
 impl View for SdkStream {
-    type V = StreamV;
-    open spec fn view(&self) -> StreamV {
-        StreamV { id: self.id, created_at: self.created_at@, topics_count: self.topics_count, size: self.size.0, messages_count: self.messages_count, name: self.name@ }
+    type V = StreamInfoV;
+    open spec fn view(&self) -> StreamInfoV {
+        StreamInfoV { id: self.id, created_at: self.created_at@, topics_count: self.topics_count, size: self.size.0, messages_count: self.messages_count, name: self.name@ }
     }
 }
-impl Wire for StreamV {
+impl Wire for StreamInfoV {
     open spec fn enc(self) -> Seq<u8> {
         le32(self.id) + le64(self.created_at) + le32(self.topics_count) + le64(self.size) + le64(self.messages_count)
             + seq![self.name.len() as u8] + self.name
     }
 }
-pub open spec fn stream_valid(w: StreamV) -> bool { w.name.len() <= 255 && utf8(w.name) }
-pub open spec fn streams_valid(ws: Seq<StreamV>) -> bool { forall|i: int| 0 <= i < ws.len() ==> stream_valid(#[trigger] ws[i]) }
-pub open spec fn streams_sorted(s: Seq<StreamV>) -> bool { forall|i: int, j: int| 0 <= i <= j < s.len() ==> (#[trigger] s[i]).id <= (#[trigger] s[j]).id }
-pub open spec fn sdk_stream_views(s: Seq<SdkStream>) -> Seq<StreamV> { Seq::new(s.len(), |i: int| s[i]@) }
+pub open spec fn stream_valid(w: StreamInfoV) -> bool { w.name.len() <= 255 && utf8(w.name) }
+pub open spec fn streams_valid(ws: Seq<StreamInfoV>) -> bool { forall|i: int| 0 <= i < ws.len() ==> stream_valid(#[trigger] ws[i]) }
+pub open spec fn streams_sorted(s: Seq<StreamInfoV>) -> bool { forall|i: int, j: int| 0 <= i <= j < s.len() ==> (#[trigger] s[i]).id <= (#[trigger] s[j]).id }
+pub open spec fn sdk_stream_views(s: Seq<SdkStream>) -> Seq<StreamInfoV> { Seq::new(s.len(), |i: int| s[i]@) }
 pub open spec fn stream_topics(s: Stream) -> Seq<Topic> { map_values_seq(s.topics) }
-pub open spec fn stream_view(s: Stream) -> StreamV {
-    StreamV { id: s.stream_id, created_at: s.created_at@, topics_count: stream_topics(s).len() as u32, size: s.size_bytes.v, messages_count: s.messages_count.v, name: s.name@ }
+pub open spec fn stream_entity_view(s: Stream) -> StreamInfoV {
+    StreamInfoV { id: s.stream_id, created_at: s.created_at@, topics_count: stream_topics(s).len() as u32, size: s.size_bytes.v, messages_count: s.messages_count.v, name: s.name@ }
 }
-pub open spec fn stream_views(s: Seq<&Stream>) -> Seq<StreamV> { Seq::new(s.len(), |i: int| stream_view(*s[i])) }
-pub proof fn lemma_stream_at(buf: Seq<u8>, pos: int, w: StreamV)
+pub open spec fn stream_views(s: Seq<&Stream>) -> Seq<StreamInfoV> { Seq::new(s.len(), |i: int| stream_entity_view(*s[i])) }
+pub proof fn lemma_stream_at(buf: Seq<u8>, pos: int, w: StreamInfoV)
     requires at_pos(buf, pos, w.enc()),
     ensures
         w.enc().len() == 33 + w.name.len(),
@@ -609,7 +599,7 @@ pub proof fn lemma_stream_at(buf: Seq<u8>, pos: int, w: StreamV)
     assert(buf.subrange(pos + 33, pos + 33 + n) =~= s.subrange(33, 33 + n));
     assert(e.subrange(33, 33 + n) =~= w.name);
 }
-pub proof fn lemma_streams_nonempty(ws: Seq<StreamV>)
+pub proof fn lemma_streams_nonempty(ws: Seq<StreamInfoV>)
     ensures all_nonempty(ws),
 {
     assert forall|i: int| 0 <= i < ws.len() implies (#[trigger] ws[i]).enc().len() > 0 by { lemma_le_facts(); }
@@ -754,13 +744,13 @@ pub proof fn lemma_partitions_nonempty(ws: Seq<PartitionV>)
 }
 
 // ---- stream details (GetStream response):  Stream | topic*          topic details (GetTopic response):  Topic | partition* ----------
-pub ghost struct StreamDetailsV { pub head: StreamV, pub topics: Seq<TopicV> }
+pub ghost struct StreamDetailsV { pub head: StreamInfoV, pub topics: Seq<TopicV> }
 impl Wire for StreamDetailsV {
     open spec fn enc(self) -> Seq<u8> { self.head.enc() + enc_seq(self.topics) }
 }
 pub open spec fn stream_details_valid(w: StreamDetailsV) -> bool { stream_valid(w.head) && topics_valid(w.topics) }
-pub open spec fn stream_details_head(x: StreamDetails) -> StreamV {
-    StreamV { id: x.id, created_at: x.created_at@, topics_count: x.topics_count, size: x.size.0, messages_count: x.messages_count, name: x.name@ }
+pub open spec fn stream_details_head(x: StreamDetails) -> StreamInfoV {
+    StreamInfoV { id: x.id, created_at: x.created_at@, topics_count: x.topics_count, size: x.size.0, messages_count: x.messages_count, name: x.name@ }
 }
 pub ghost struct TopicDetailsV { pub head: TopicV, pub partitions: Seq<PartitionV> }
 impl Wire for TopicDetailsV {
